@@ -4,7 +4,8 @@ from . import common as C, gen_int as G, oracles as O
 LEAN_MODULE = ["Urandom.Props.C06", "Urandom.Props.C05T", "Urandom.Props.C06T", "Urandom.Props.C04R"]
 RULE = ("requests: index(len) for len in {0,1,2,..,2^63+k,usize::MAX}, choose/choose_mut on slices of 0..40 elements, single on collections of 0..40 items with exact (slice, Vec, custom), inexact (lower/upper bound, Filter) and missing size hints (the reservoir path with Float01 words at and around the 1/i thresholds); "
         "extra: exact outcome counts over complete one-draw grids (shortcut paths) and a frequency test under real generators (all hint kinds incl. the reservoir path; alarm only beyond a 1e-12 chi-square bound); "
-        "words at the ends of the acceptance interval of the chosen position; non-trivial = collection non-empty or the None path; distinct = distinct request line")
+        "words at the ends of the acceptance interval of the chosen position; non-trivial = collection non-empty or the None path; distinct = distinct request line"
+        " Since round 10: index(n) as op idx:n inside ChaCha histories at every kind of buffer position.")
 ASSUMPTIONS = []
 
 
